@@ -3,6 +3,8 @@ import XalanModel.C03.BuffersProofs
 import XalanModel.C03.LoopsProofs
 import XalanModel.C03.Structure
 import XalanModel.C03.GuardProofs
+import XalanModel.C03.UriProofs
+import XalanModel.Generated.C03_Messages
 /-!
 # C03 — no input crashes, hangs or corrupts memory; every failure is a reported error
 
@@ -557,5 +559,106 @@ theorem guard_top_only_counterexample :
     intro fuel
     exact gen fuel [] 0 (by omega) (by simp)
   · decide
+
+/-! ## (f) error-message buffers; URI resolution -/
+
+open XalanModel.Generated.C03_Messages in
+/-- **Every `XalanMessageLoader::getMessage` overload hands load()/loadMsg() a CHARACTER limit that its stack buffer can hold**
+    (limit + the terminating NUL ≤ the declared element count of `sBuffer`; a `sizeof(sBuffer)` limit counts bytes and fails this),
+    and every message of the catalogue has an overload with enough substitution slots.  `load()` passes that limit on to
+    `XMLString::replaceTokens(toFill, maxChars, …)`, which truncates at `maxChars` (Xerces-C, modelled-not-verified).
+    `decide` over the regenerated overload table and catalogue. -/
+theorem message_buffers_bounded :
+    (∀ o ∈ overloads, o.limit + 1 ≤ o.elems) ∧
+    (∀ n ∈ catalogueSlots, ∃ o ∈ overloads, n ≤ o.reps) ∧
+    longestMessageText ≤ maxMessageLength := by
+  decide +kernel
+
+example : XalanModel.Generated.C03_Messages.overloads.length = 6 := by decide
+
+/-- **XalanParsedURI::resolve, removal of "./", "<segment>/../", trailing "." and "..": in bounds and terminating for every path.**
+    For every merged path (any characters, any length) the loop — with the decrements guarded as the regenerated flag says —
+    never reads or erases outside the string (`memErr`) and ends within `(n + 2)²` rounds: every round erases at least one
+    character or moves the index forward (measure `length·K + (K − index)`). -/
+theorem uri_dot_removal_in_bounds_and_terminates (p : List Nat) :
+    ∃ r, dotLoop uriDecrementsGuarded (dotFuel p.length) p 0 = .ok r := by
+  have hg : uriDecrementsGuarded = true := rfl
+  rw [hg]
+  have h1 := dotLoop_guarded_ne_memErr (dotFuel p.length) p 0
+  have h2 := dotLoop_guarded_ne_outOfFuel (p.length + 2) (dotFuel p.length) p 0 (Nat.le_refl _) (by omega)
+    (by unfold dotFuel; rw [Nat.add_mul]; omega)
+  cases h : dotLoop true (dotFuel p.length) p 0 with
+  | ok r => exact ⟨r, rfl⟩
+  | memErr => exact absurd h h1
+  | outOfFuel => exact absurd h h2
+
+/-- **XalanParsedURI::parse(uriString, uriStringLen) reads inside its buffer and terminates, for every string.**  Two tests stand outside
+    an `index < uriStringLen && …` chain: `uriString[index] == ':'` after the scheme scan (index may equal the length) and the "//" test
+    behind `index < uriStringLen - 1` (unsigned: for length 0 it lets index 0 through).  The regenerated flag `uriParseBounded` says
+    whether they carry a bound of their own.  If they do, parse stays inside an EXACTLY sized buffer; if they do not, it stays inside a
+    buffer that carries a terminating 0 behind the characters (what `XalanDOMString::c_str()` hands in — every caller inside Xalan) and
+    reads at most that one element more. -/
+theorem uri_parse_in_bounds (s : List Nat) :
+    ∃ u, parseBuf uriParseBounded (bufferOf (!uriParseBounded) s) s.length = .ok u :=
+  parseBuf_ok _ _ _ (bufferOf_fits uriParseBounded s)
+
+/-- on terminated buffers parse is in bounds whatever the form of the two tests -/
+theorem uri_parse_terminated_in_bounds (bounded : Bool) (s : List Nat) :
+    ∃ u, parseBuf bounded (bufferOf true s) s.length = .ok u :=
+  parseBuf_ok _ _ _ (bufferOf_terminated_fits bounded s)
+
+/-- the unbounded form on exactly sized buffers: "x" (no delimiter: the scheme test reads element 1 of 1) and "" (the "//" test reads
+    element 0 of 0); the bounded form reads neither -/
+theorem uri_parse_unterminated_counterexample :
+    parseBuf false [120] 1 = .memErr ∧ parseBuf false [] 0 = .memErr ∧
+    parseBuf true [120] 1 = .ok ⟨none, none, [120], none, none⟩ ∧ parseBuf true [] 0 = .ok ⟨none, none, [], none, none⟩ := by
+  decide +kernel
+
+/-- the index form of parse and the regular-expression form `^(([^:/?#]+):)?(//([^/?#]*))?([^?#]*)(\?([^#]*))?(#(.*))?` agree (sample; the
+    driver compares the two on every pair of the correspondence run) -/
+example : parseBuf true [104, 116, 116, 112, 58, 47, 47, 97, 47, 98, 63, 113, 35, 102] 14 =
+    .ok (parseUri [104, 116, 116, 112, 58, 47, 47, 97, 47, 98, 63, 113, 35, 102]) := by decide +kernel
+
+/-- … hence resolving any reference against any base is total: parse, merge, dot removal and make never leave their strings
+    (buffers exactly sized if parse is bounded, terminated otherwise — see `uri_parse_in_bounds`) -/
+theorem uri_resolve_total (rel base : List Nat) :
+    ∃ r, resolveStrings uriDecrementsGuarded uriParseBounded (!uriParseBounded) rel base = .ok r := by
+  have key : ∀ r b : Uri, ∃ u, resolveUri uriDecrementsGuarded r b = .ok u := by
+    intro r b
+    unfold resolveUri
+    by_cases h1 : b.scheme.isNone = true
+    · rw [if_pos h1]; exact ⟨_, rfl⟩
+    · rw [if_neg h1]
+      by_cases h2 : r.scheme.isNone = true ∧ r.authority.isNone = true ∧ r.query.isNone = true ∧ r.path.isEmpty = true
+      · rw [if_pos h2]; exact ⟨_, rfl⟩
+      · rw [if_neg h2]
+        by_cases h3 : r.scheme.isNone = true ∨ (r.authority.isNone = true ∧ (r.scheme.map (·.map lower)) = (b.scheme.map (·.map lower)))
+        · rw [if_pos h3]
+          simp only
+          by_cases h4 : r.authority.isNone = true
+          · rw [if_pos h4]
+            by_cases h5 : r.path.head? = some cSlash
+            · rw [if_pos h5]; exact ⟨_, rfl⟩
+            · rw [if_neg h5]
+              obtain ⟨q, e⟩ := uri_dot_removal_in_bounds_and_terminates
+                (b.path.take (b.path.length - (b.path.reverse.takeWhile (· ≠ cSlash)).length) ++ r.path)
+              rw [e]
+              exact ⟨_, rfl⟩
+          · rw [if_neg h4]; exact ⟨_, rfl⟩
+        · rw [if_neg h3]; exact ⟨_, rfl⟩
+  obtain ⟨r, e1⟩ := uri_parse_in_bounds rel
+  obtain ⟨b, e2⟩ := uri_parse_in_bounds base
+  obtain ⟨u, e⟩ := key r b
+  exact ⟨makeUri u, by simp only [resolveStrings, e1, e2, e]⟩
+
+example : resolveStrings true true false [46, 46, 47, 103] [104, 116, 116, 112, 58, 47, 47, 97, 47, 98, 47, 99] =
+    .ok [104, 116, 116, 112, 58, 47, 47, 97, 47, 103] := by decide +kernel
+
+/-- with a bare `--index` (the guard `if (index > 0)` gone) a "../" at index 0 of the merged path wraps the unsigned index and the
+    backward scan reads in front of the string: `../x` against a base whose path has no '/' (`file:main.xsl`) -/
+theorem uri_unguarded_decrement_counterexample :
+    dotLoop false (dotFuel 4) [46, 46, 47, 120] 0 = .memErr ∧
+    resolveStrings false true false [46, 46, 47, 120] [102, 105, 108, 101, 58, 109, 97, 105, 110, 46, 120, 115, 108] = .memErr := by
+  decide +kernel
 
 end XalanModel.Props.C03
